@@ -69,6 +69,9 @@ pub struct Inner {
     pub fail_latency_ms: u64,
     /// the next `remove_tombstones` call (and only such a call) fails this way
     pub purge_fault: Option<Fault>,
+    /// `get_keyspace_list` / `iter_metadata` calls so far, and the one of them that fails (once) with an injected error
+    pub read_calls: u64,
+    pub read_fault_at: Option<u64>,
 }
 
 /// Process-wide order of successful storage writes (all stores, all threads).
@@ -144,6 +147,19 @@ impl ModelStore {
         Ok(Gate::Proceed { park: g.park_at == Some(idx) })
     }
 
+    /// counts a listing read (keyspace list / metadata of a keyspace) and fails the one `read_fault_at` names
+    fn listing_read(&self) -> Result<(), StoreError> {
+        let mut g = self.inner.lock();
+        let idx = g.read_calls;
+        g.read_calls += 1;
+        if g.read_fault_at == Some(idx) {
+            g.read_fault_at = None;
+            g.injected += 1;
+            return Err(StoreError::Injected);
+        }
+        Ok(())
+    }
+
     fn check_read(&self) -> Result<(), StoreError> {
         if self.inner.lock().live_epoch != self.epoch {
             if std::env::var("VP_DEBUG").is_ok() {
@@ -198,6 +214,7 @@ impl Storage for ModelStore {
 
     async fn get_keyspace_list(&self) -> Result<Vec<String>, Self::Error> {
         self.check_read()?;
+        self.listing_read()?;
         let (out, latency): (Vec<String>, u64) = {
             let g = self.inner.lock();
             (g.keyspaces.iter().cloned().collect(), g.read_latency_ms)
@@ -210,6 +227,7 @@ impl Storage for ModelStore {
 
     async fn iter_metadata(&self, keyspace: &str) -> Result<Self::MetadataIter, Self::Error> {
         self.check_read()?;
+        self.listing_read()?;
         let out = self.metadata(keyspace).into_iter().map(|(k, (ts, tomb))| (k, ts, tomb)).collect::<Vec<_>>();
         let latency = self.inner.lock().read_latency_ms;
         if latency > 0 {
